@@ -447,7 +447,7 @@ class ImplWorld:
                 sh['ctype'], sh['cmodes'] = op['type'], {e: m for e, m in op['ms']}
             elif o == 'setside':
                 it.set_side_effect_status(op['e'], bool(op['on']))
-                sh['modes'][op['e']] = int(it.get_effect_mode(op['e']))   # which mode realises the switch is eos' choice
+                sh['modes'][op['e']] = int(it.get_effect_mode(op['e']))     # which mode realises it is eos' choice
             elif o == 'randomize':
                 seq = list(op['draws'])
                 orig = booster_mod.random
@@ -518,6 +518,26 @@ class ImplWorld:
                                                 onl[0][2], True, False)
         return True, {e: spec_decide(st, modes.get(e, 1), DOC_STATE[cat], dflt == e, h, e == ONLINE, online_runs)
                       for e, cat, h, _ in effs}
+
+    def expected_status(self, op):
+        """Documented rejection an op must meet in the current world (decided before it runs), else 'ok'."""
+        o = op['op']
+        if 'id' not in op or o == 'new':
+            return 'ok'
+        sh = self.sh.get(op['id'])
+        if sh is None:
+            return None                      # ill-formed sequence (shrinker): apply() raises Invalid
+        view = self.view(sh['type']) if sh['onfit'] else None
+        if o == 'add' and sh['onfit']:
+            return 'ValueError'
+        if o == 'state' and sh['kind'] not in MUTABLE:
+            return 'AttributeError'
+        if o == 'setside' and not (view and any(
+                e == op['e'] and DOC_STATE[cat] == 1 and val is not None for e, cat, _, val in view[2])):
+            return 'NoSuchSideEffectError'
+        if o == 'setability' and not (view and op['a'] in view[1]):
+            return 'NoSuchAbilityError'
+        return 'ok'
 
     def check(self, op, status, violate):
         """Property clauses on the real objects after one op."""
@@ -594,11 +614,7 @@ class ImplWorld:
                         self.sh[op['id']]['state']))
 
 
-EXPECTED_ERRORS = {'add': 'ValueError', 'state': 'AttributeError', 'setside': 'NoSuchSideEffectError',
-                   'setability': 'NoSuchAbilityError'}        # documented rejections, per op
-
-
-def run_history(desc, ops, rep=None, compare=True, oracle=True, tag=''):
+def run_history(desc, ops, rep=None, compare=True, oracle=True):
     """Run one history on eos (and on the model when `compare`); returns the first problem or None."""
     w = ImplWorld(desc)
     lines = universe_lines(desc, w.views) + [op_line(op) for op in ops]
@@ -609,6 +625,7 @@ def run_history(desc, ops, rep=None, compare=True, oracle=True, tag=''):
         raise C.InfraError('driver refused the universe: %r' % [m for m in model if m != 'ok'][:3])
     found = []
     for k, op in enumerate(ops):
+        want = w.expected_status(op) if oracle else None
         status = w.apply(op)
         case = {'universe': desc, 'ops': ops[:k + 1], 'step': k, 'op': op}
         if oracle:
@@ -617,8 +634,8 @@ def run_history(desc, ops, rep=None, compare=True, oracle=True, tag=''):
             except Exception as e:
                 found.append(('violate', 'reading effects / side effects / abilities after %s raised %s' % (
                     op['op'], type(e).__name__), case))
-            if status != 'ok' and EXPECTED_ERRORS.get(op['op']) != status:
-                found.append(('violate', 'op %s raised %s' % (op['op'], status), case))
+            if want is not None and status != want:
+                found.append(('violate', 'op %s: outcome %s, expected %s' % (op['op'], status, want), case))
         if compare:
             impl_line = '|'.join([status] + w.observe())
             mline = model[len(lines) - len(ops) + k]
@@ -681,7 +698,7 @@ def shrink(desc, ops, kind):
 
 def histories(ctx, rep, n_worlds, n_ops, key, compare, oracle):
     rnd = ctx.sub_rnd(key)
-    for wi in range(n_worlds):
+    for _ in range(n_worlds):
         desc = make_universe(rnd)
         ops = gen_ops(rnd, desc, n_ops)
         f = run_history(desc, ops, rep, compare=compare, oracle=oracle)
@@ -749,9 +766,7 @@ class Quiet:
     """Report view that keeps violations but does not count the table rows a second time."""
 
     def __init__(self, rep):
-        import collections
-        self.dist = collections.Counter()
-        self._rep = rep
+        self.dist = type(rep.dist)()
 
     def case(self, **kw):
         pass
